@@ -140,7 +140,14 @@ func verifSame(label string, a, b []string) {
 // GET /tags/{tag}, from path-parameter parsing down to the file system: no tag
 // makes the tag store create, change or delete anything outside its two
 // directories, and a lookup never returns the content of a file outside.
-func VerifTagNameConfined() {
+func VerifTagNameConfined() { verifTagFlow(false) }
+
+// VerifFindingTagDotDot: the same request flow restricted to the tag whose
+// decoded form is ".." (FINDINGS.md): the tag store writes into the parent of
+// its cache directory.
+func VerifFindingTagDotDot() { verifTagFlow(true) }
+
+func verifTagFlow(finding bool) {
 	t := verifLayout()
 	fs, err := store.NewSimpleStore(store.SimpleStoreConfig{
 		UploadDir:     t.roots[0],
@@ -159,6 +166,8 @@ func VerifTagNameConfined() {
 		verif.Reach("rejected-by-parse")
 		return
 	}
+	// The decoded tag ".." is a recorded finding with its own harness.
+	verif.Assume((tag == "..") == finding)
 
 	perr := ts.Put(context.Background(), tag, d, 0)
 	verif.Cover("put-ok", perr == nil)
